@@ -82,8 +82,8 @@ def check_position(ctx, inst="C04.position"):
         for x, f in ((g, "generation"), (sl, "slot")):
             for n in x:
                 v = R.arg_expr(b, b.nodes[n], 1)
-                ctx.check(v.has_field("JournalState", f) and any(c.nid in dec for c in v.calls()), inst, "PROVENANCE", b.path,
-                          "journal_%s is restored from the decoded state" % f, b.where(n), {"value": v.show()[:80]})
+                ctx.check(v.k == "field" and v.extra[1] == f and any(c.nid in dec for c in v.calls()) and not any(x.k == "bin" for x in v.walk()), inst, "PROVENANCE", b.path,
+                          "journal_%s is restored exactly as decoded (it names the slot / generation of the newest record; next_journal_position adds the step)" % f, b.where(n), {"value": v.show()[:80]})
     allowed = ["DiskIO::read_allocation_journal", "DiskIO::write_allocation_journal", "DiskIO::clear_allocation_journal"]
     n_w = 0
     for bb in ctx.prog.product_bodies():
@@ -204,6 +204,25 @@ def check_repairs(ctx, inst):
             # record extents: only after the record's token verified on v3 (C03.recover) — dominated by the loser test
             isa = R.call("Option::is_some_and").filter(lambda b, n: R.recv_expr(b, n).has_call("HashMap::read"), "loser test")(scan)
             R.dom(ctx, inst, scan, isa, [p], "a record extent is queued only after the winner/loser decision", a_desc="loser test")
+    # a queued record extent is (sector of generation G, ceil(on-disk total_size of G / BLOCK)): the same generation for both,
+    # and the on-disk size, not the in-memory footprint (one block too many would put a marker over a neighbour's head block)
+    for n in scan.calls():
+        if not (R.call_matches(n.ev, "Vec::push") and "retired_extents" in (names_of(scan, R.recv_expr(scan, n)) | origin_names(scan, R.recv_expr(scan, n)))):
+            continue
+        t = R.arg_expr(scan, n, 1)
+        if not (t.k == "agg" and len(t.a) == 2):
+            continue
+        sec, ln = t.a
+        if ln.has_call("from_le_bytes") and not ln.has_call("RecordFormat::total_size"):
+            continue        # marker extent: its length is the marker's own field (checked above / C17 DeviceRange)
+        ts = [c for c in ln.walk() if c.k == "call" and path_matches(c.extra, "RecordFormat::total_size")]
+        okl = len(ts) == 1 and ln.has_call("div_ceil") and not ln.has_call("FeoxStore::calculate_record_size")
+        ctx.check(okl, inst, "PROVENANCE", scan.path, "a queued record extent is ceil(RecordFormat::total_size / BLOCK) blocks long (on-disk size, not the memory footprint)", scan.where(n.id), {"length": ln.show()[:100]})
+        if okl:
+            from_existing = ts[0].a[1].has_call("HashMap::read") and not ts[0].a[1].has_call("RecordFormat::parse_record") or ts[0].a[2].has_call("HashMap::read")
+            sec_existing = sec.has_call("HashMap::read")
+            ctx.check(from_existing == sec_existing, inst, "PROVENANCE", scan.path, "sector and length of a queued extent describe the same generation", scan.where(n.id),
+                      {"sector": sec.show()[:60], "length": ln.show()[:80]})
     # the extents handed to the journalled retirement are exactly that list (no other source)
     rt = R.call("DiskIO::retire_extents")(scan)
     for r in rt:
